@@ -616,6 +616,14 @@ impl<'a> Exec<'a> {
                 v
             })
             .collect();
+        // asynchronous completion: if the callback were ever invoked before all steps finished, the
+        // workers would still be writing when this function returns with a violation - the buffers
+        // are therefore leaked (never freed) in async mode, so that the report gets out
+        let bufs: &mut Vec<Vec<u32>> = if is_async {
+            Box::leak(Box::new(std::mem::take(&mut bufs)))
+        } else {
+            &mut bufs
+        };
         let steps: Vec<LlgConstraintStep> = ptrs
             .iter()
             .zip(bufs.iter_mut())
